@@ -352,6 +352,14 @@ func c02CheckProgram(c0 *Ctx, p *c02Prog, or *Oracle, srv *FcSrv, hazard bool, q
 	var vmasks []uint
 	var srcs []string
 	for mask := uint(0); mask < nvar; mask++ {
+		if p.deferredFieldPairs(mask) && !hazard {
+			// two field accesses whose record type fc does not know at parse time in one function: compositeTp's
+			// FFieldAccess/FFieldAccess case unifies the RECORD types of the two accesses (reported finding;
+			// deferred field access is not modelled)
+			c.Count("variant_outside_domain")
+			c.Count("variant_with_two_deferred_field_accesses_skipped")
+			continue
+		}
 		if !models[mask].inDomain || (models[mask].openGN || c02TwoUnionInst(models[mask].user)) && !hazard {
 			c.Count("variant_outside_domain")
 			continue
@@ -527,6 +535,39 @@ func c02Shrink(c *Ctx, p *c02Prog, res *c02Checked, or *Oracle, srv *FcSrv) (*c0
 		}
 	}
 	return best, bres
+}
+
+// does a function of this variant contain two field accesses on variables whose type fc cannot know at parse
+// time (parameters without annotation in this variant, lambda parameters)?
+func (p *c02Prog) deferredFieldPairs(mask uint) bool {
+	for fi, f := range p.Funcs {
+		unk := map[string]bool{}
+		for pi, pa := range f.Params {
+			if !(pa.Ann && !p.erased(mask, fi, pi)) {
+				unk[pa.Name] = true
+			}
+		}
+		n := 0
+		var walk func(e *c02Exp)
+		walk = func(e *c02Exp) {
+			if e.K == "lam" {
+				for _, x := range e.Xs {
+					unk[x] = true
+				}
+			}
+			if e.K == "field" && e.Args[0].K == "var" && unk[e.Args[0].Name] {
+				n++
+			}
+			for _, a := range e.Args {
+				walk(a)
+			}
+		}
+		walk(f.Body)
+		if n >= 2 {
+			return true
+		}
+	}
+	return false
 }
 
 func c02Features(c *Ctx, p *c02Prog) {
